@@ -126,3 +126,8 @@ package dependency
 //@   loop 2 trace_step injerr != nil : ^$
 // a failed optional resolution never ends the walk
 //@   trace_ensures result != nil && got.1 != nil && hasprefix(tag, "?") : !GET $
+
+// the constructor establishes the well-formedness every method relies on
+//@ func NewProvider [C10]
+//@   modifies $none
+//@   ensures typeis(result, "*Provider") && WF(as(result, "*Provider")) && !as(result, "*Provider").blocked && len(as(result, "*Provider").callstack) == 0
